@@ -204,7 +204,7 @@ Ltac okc := split; [discriminate|left; reflexivity].
 Lemma take_fault_tsetup s k o s1 : take_fault s k = (o, s1) -> tget (threads s1) TSetup = tget (threads s) TSetup.
 Proof. intros E. unfold take_fault in E. destruct k as [|[|[|k]]]; inversion E; subst; reflexivity. Qed.
 
-Lemma InvH_env calls s a s' : InvH s -> step_env calls s a = Some s' -> InvH s'.
+Lemma InvH_env calls s a s' : InvH s -> step_env fixed calls s a = Some s' -> InvH s'.
 Proof.
   intros HI H. unfold step_env in H. destruct a.
   - (* EStart *)
@@ -213,7 +213,7 @@ Proof.
     assert (H0 : InvH (if c_closure cs then with_closures s (i :: closures s) else s)) by (destruct (c_closure cs); [apply invH_with_closures|]; auto).
     destruct (take_fault _ 2) as [[x|] s1] eqn:E; pose proof (invH_take_fault _ _ _ _ E H0) as H1; inversion H; subst; clear H.
     + apply invH_caller_panic; auto.
-    + destruct (bclosed s1); inversion H3; subst; [apply invH_caller_panic; auto|].
+    + destruct (bclosed s1); inversion H3; subst; [apply invH_caller_return; auto|].
       eapply (invH_core s1); [simpl; apply tget_tset_other; discriminate|reflexivity|reflexivity| |exact H1].
       intros Hs. unfold InvH in H1. rewrite Hs in H1. destruct H1 as (_ & _ & C & D). split; auto.
       simpl. apply no_callee_tset; auto.
